@@ -56,9 +56,88 @@ JOINED = '<join(self.path,path)>'
 
 
 class _Tr:
-    def __init__(self, where: str) -> None:
+    def __init__(self, where: str, helpers: dict | None = None, depth: int = 0) -> None:
         self.where = where
         self.env: dict[str, str] = {}      # local string variables -> sx text
+        # functions whose body may be read in place of a call: methods of RawFileSystem / FileSystem called as
+        # `self.name(...)`, module-level functions called as `name(...)` (helpers extracted from _resolve_path)
+        self.helpers: dict[str, ast.FunctionDef] = helpers or {}
+        self.depth = depth
+
+    def helper_call(self, n: ast.AST):
+        """(function, translator with the parameters bound to the translated arguments) when `n` is a call of a helper
+        whose body can be read in place of the call, else None."""
+        if not isinstance(n, ast.Call) or n.keywords or any(isinstance(a, ast.Starred) for a in n.args):
+            return None
+        f = n.func
+        if isinstance(f, ast.Attribute) and isinstance(f.value, ast.Name) and f.value.id == 'self':
+            key = 'self.' + f.attr
+        elif isinstance(f, ast.Name):
+            key = f.id
+        else:
+            return None
+        fn = self.helpers.get(key)
+        if fn is None:
+            return None
+        if self.depth >= 3:
+            self.fail(n, 'helpers nested too deeply (or recursive)')
+        decs = [_dotted(d.func if isinstance(d, ast.Call) else d) for d in fn.decorator_list]
+        if any(d not in NEUTRAL_DECORATORS for d in decs):
+            self.fail(n, f'helper {key} is decorated (something may answer in place of its body)')
+        a = fn.args
+        if a.vararg or a.kwarg or a.kwonlyargs or a.posonlyargs or a.defaults:
+            self.fail(n, f'helper {key} has a signature that is not read')
+        params = [x.arg for x in a.args]
+        if key.startswith('self.') and 'staticmethod' not in decs:
+            if not params or params[0] != 'self':
+                self.fail(n, f'helper {key} does not take self')
+            params = params[1:]
+        if len(params) != len(n.args):
+            self.fail(n, f'helper {key} called with {len(n.args)} arguments for {len(params)} parameters')
+        inner = _Tr(f'{self.where} -> {key}', self.helpers, self.depth + 1)
+        for prm, arg in zip(params, n.args):
+            inner.env[prm] = self.sx(arg)
+        return fn, inner
+
+    def run_body(self, fn: ast.FunctionDef, leaf):
+        """Path-condition execution of a helper body made of assignments of string expressions to locals, `if` / `else`
+        over boolean expressions and `return e`: list of (conditions on the path, leaf(e) under the locals of the path)."""
+        out: list[tuple[list[str], str]] = []
+
+        def block(stmts, conds):
+            for st in stmts:
+                if isinstance(st, ast.Expr) and isinstance(st.value, ast.Constant) or isinstance(st, ast.Pass):
+                    continue
+                if isinstance(st, (ast.Assign, ast.AnnAssign)):
+                    tg = st.targets if isinstance(st, ast.Assign) else [st.target]
+                    if len(tg) != 1 or not isinstance(tg[0], ast.Name) or st.value is None or tg[0].id == 'self':
+                        self.fail(st, 'assignment to something other than one local name')
+                    self.env[tg[0].id] = self.sx(st.value)
+                elif isinstance(st, ast.If):
+                    g = self.gx(st.test)
+                    saved = dict(self.env)
+                    t_out = block(st.body, conds + [g])
+                    env_t, self.env = self.env, dict(saved)
+                    f_out = block(st.orelse, conds + [f'(GNot {g})'])
+                    if t_out is not None and f_out is not None:
+                        if env_t != self.env:
+                            self.fail(st, 'locals assigned differently in two branches that both continue')
+                    elif t_out is not None:
+                        conds, self.env = t_out, env_t
+                    elif f_out is not None:
+                        conds = f_out
+                    else:
+                        return None
+                elif isinstance(st, ast.Return) and st.value is not None:
+                    out.append((conds, leaf(st.value)))
+                    return None
+                else:
+                    self.fail(st, 'unrecognised statement in a helper')
+            return conds
+
+        if block(fn.body, []) is not None:
+            self.fail(fn, 'a path through the helper ends without return')
+        return out
 
     def fail(self, node: ast.AST, what: str):
         raise TranslateError(f'filesys.py:{getattr(node, "lineno", "?")}: {self.where}: {what}: `{ast.unparse(node)}`')
@@ -88,6 +167,13 @@ class _Tr:
                 a, b = (n.orelse, n.body) if neg else (n.body, n.orelse)
                 return f'(SIfEndsSep {self.sx(t.func.value)} {self.sx(a)} {self.sx(b)})'
             self.fail(n, 'conditional string whose test is not X.endswith(os.sep)')
+        hc = self.helper_call(n)
+        if hc is not None:
+            fn, inner = hc
+            paths = inner.run_body(fn, inner.sx)
+            if len(paths) != 1:
+                self.fail(n, 'string-valued helper with more than one return path')
+            return paths[0][1]
         if isinstance(n, ast.Call) and not n.keywords:
             f = n.func
             fd = _dotted(f)
@@ -132,6 +218,15 @@ class _Tr:
             if isinstance(n.ops[0], ast.NotEq):
                 return f'(GNot (GEq {a} {b}))'
             self.fail(n, 'comparison operator other than == / !=')
+        hc = self.helper_call(n)
+        if hc is not None:
+            fn, inner = hc
+            paths = inner.run_body(fn, inner.gx)      # true iff some path is taken and returns true
+            terms = [_conj(conds + [leaf]) for conds, leaf in paths]
+            out = terms[-1]
+            for x in reversed(terms[:-1]):
+                out = f'(GOr {x} {out})'
+            return out
         if isinstance(n, ast.Call) and isinstance(n.func, ast.Attribute) and len(n.args) == 1 and not n.keywords:
             if n.func.attr == 'startswith':
                 return f'(GStarts {self.sx(n.func.value)} {self.sx(n.args[0])})'
@@ -418,7 +513,7 @@ def _conj(conds: list[str]) -> str:
     return c
 
 
-def _resolve_guard(fn: ast.FunctionDef) -> tuple[str, list[str]]:
+def _resolve_guard(fn: ast.FunctionDef, helpers: dict | None = None) -> tuple[str, list[str]]:
     """Translate the body of _resolve_path by symbolic execution of its paths; returns (gx text of the condition under
     which RootEscapeError is raised, list of the source conditions met).
 
@@ -428,7 +523,7 @@ def _resolve_guard(fn: ast.FunctionDef) -> tuple[str, list[str]]:
     tests on the path.  `if c: return abs_path` followed by more statements is therefore the same as `if not c: ...`,
     an `else: raise` the same as `if not c: raise`, and the names of the locals do not matter: `SAbs` is whatever
     expression is `os.path.abspath(os.path.join(self.path, path))` after substituting locals."""
-    tr = _Tr('_resolve_path')
+    tr = _Tr('_resolve_path', helpers)
     params = [a.arg for a in fn.args.args]
     if len(params) != 2 or fn.args.vararg or fn.args.kwarg or fn.args.kwonlyargs or fn.args.posonlyargs or fn.args.defaults:
         tr.fail(fn, 'unexpected signature')
@@ -584,7 +679,14 @@ def translate() -> tuple[str, dict]:
                   for t in (x.targets if isinstance(x, ast.Assign) else [x.target]) if _dotted(t) == 'self.constrain_path']
     con_from_param = stored.get('constrain_path') == 'CON'
     con_elsewhere = any(fn != '__init__' for fn, _ in con_stores)
-    guard, srcs = _resolve_guard(resolve)
+    helpers: dict[str, ast.FunctionDef] = {}
+    for n in tree.body:
+        if isinstance(n, ast.FunctionDef):
+            helpers[n.name] = n
+        elif isinstance(n, ast.ClassDef) and n.name == 'FileSystem':
+            helpers.update({'self.' + f.name: f for f in n.body if isinstance(f, ast.FunctionDef)})
+    helpers.update({'self.' + f.name: f for f in raw.body if isinstance(f, ast.FunctionDef) and f.name != '_resolve_path'})
+    guard, srcs = _resolve_guard(resolve, helpers)
     # the census of access sites is taken from the data-flow interpreter of translate/c18_ops.py (helper methods inlined,
     # locals followed); only if that one cannot read the class the syntactic census below is used
     try:
